@@ -241,6 +241,12 @@ class ScaledRun(Run):
     def jac(self, x, *args):
         return super().jac(x) * self.s
 
+    def user_f(self, pt):
+        return self.fu(pt)[0] * self.s
+
+    def user_scale(self):
+        return self.s
+
 
 def _c17(ctx, params):
     W, prob, gtol = _setup(ctx, params)
@@ -260,17 +266,19 @@ def _c17(ctx, params):
     def scaler(x, grad, lb, ub):
         S.scaler_calls.append(dict(x=list(x.data), grad=list(grad.data), lb=list(lb.data), ub=list(ub.data)))
         return sv
-    cfgS = _cfg(params, gtol, gradient_scaler=scaler, ftol=ftol, callback_kind="false")
+    fd = params.get("jac")            # None: callable gradient; else a finite-difference mode
+    jkw = {} if fd is None else dict(jac=None if fd == "none" else fd)
+    cfgS = _cfg(params, gtol, gradient_scaler=scaler, ftol=ftol, callback_kind="false", **jkw)
     if ft is not None:
         cfgS["ftarget"] = ft
     S.execute(cfgS)
     if S.exc is not None:
         return _exc(ctx, S, info, "S")
-    if not S.gcalls:
+    if not S.gcalls and not S.fd_calls:
         # target already met at x0: no gradient is ever computed, so no scaler can be applied (documented corner)
         return dict(cls="target-met-at-x0")
     E = ScaledRun(prob, sv, "E")
-    cfgE = _cfg(params, gtol, ftol=ftol, callback_kind="false")
+    cfgE = _cfg(params, gtol, ftol=ftol, callback_kind="false", **jkw)
     if ft is not None:
         cfgE["ftarget"] = ft * sv
     E.execute(cfgE)
@@ -294,7 +302,9 @@ def _c17(ctx, params):
         ctx.check("C17.same_callback_states", zor(terms), info=info)
     # the scaler is invoked exactly once with (clipped x0, unscaled gradient there, bounds)
     bad = len(S.scaler_calls) != 1
-    if not bad and S.gcalls:
+    if fd is not None:
+        ctx.check("C17.scaler_called_once_with_start_point_and_unscaled_gradient", bad, info=dict(info, calls=len(S.scaler_calls)))
+    elif not bad and S.gcalls:
         c = S.scaler_calls[0]
         x0c = S.fcalls[0][0] if S.fcalls else None
         terms = [diff_lists(c["grad"], S.gcalls[0][1]), diff_lists(c["x"], S.gcalls[0][0]), diff_lists(c["lb"], prob.lb), diff_lists(c["ub"], prob.ub)]
